@@ -43,8 +43,23 @@ fn run_ops(a: Scad, b: Scad) -> (String, Res) {
     dump(&(a + b), &mut o);
     r.g("add", o);
     let mut o = String::new();
-    dump(&(a2 - b2), &mut o);
+    dump(&(a2.clone() - b2.clone()), &mut o);
     r.g("sub", o);
+    // the sum and the difference as operands of every operator that treats its children
+    // individually: the emitted text must keep them as one operand each
+    let (x, y) = (a2, b2);
+    let wrap = |name: &str, t: Scad, r: &mut Res| {
+        let txt = match std::panic::catch_unwind(std::panic::AssertUnwindSafe(|| format!("{}", t))) {
+            Ok(s) => ts(&s),
+            Err(_) => "PANIC".to_string(),
+        };
+        r.g(name, txt);
+    };
+    wrap("in_minkowski", minkowski!(3, x.clone() + y.clone(); y.clone(); x.clone() - y.clone();), &mut r);
+    wrap("in_difference", difference!(x.clone() + y.clone(); x.clone() - y.clone(); y.clone();), &mut r);
+    wrap("in_intersection", intersection!(x.clone() + y.clone(); y.clone(); x.clone() - y.clone();), &mut r);
+    wrap("in_hull", hull!(x.clone() + y.clone(); y.clone(); x.clone() - y.clone();), &mut r);
+    wrap("in_union", union!(x.clone() + y.clone(); y.clone(); x.clone() - y.clone();), &mut r);
     (req, r)
 }
 
